@@ -380,6 +380,11 @@ class Host:
         if h.peer is not None:
             h.peer.begin(fail_at, fail_exc)
             h.peer.protect = tuple(newline_of(h.spec, glob))
+            # (assumption A2, relaxed where it can be: only when the newline string and an EMPTY baseIndent
+            # are both set in the user layer is the library's newline chunk known to be the bare newline)
+            uo = h.spec.get('options') or {}
+            nl_u = uo.get('output.newline')
+            h.peer.inside = nl_u if (isinstance(nl_u, str) and nl_u and uo.get('output.baseIndent') == '') else None
 
         if holder == 'none':
             if glob is not None:
